@@ -51,9 +51,9 @@ inductive Represents : Tree → NExpr → Prop
       Represents (.node id .PERCENTAGE (n :: ks)) (.lit l)
   | paren {id : Nat} {ks : List Tree} {x : Tree} {e : NExpr} : opKids ks = [x] →
       Represents x e → Represents (.node id .OPERATION ks) (.paren e)
-  | chain {id : Nat} {ks : List Tree} {x₀ o x₁ : Tree} {rest : List Tree} {e₀ e : NExpr} :
-      opKids ks = x₀ :: o :: x₁ :: rest → Represents x₀ e₀ →
-      FoldR Represents e₀ (o :: x₁ :: rest) e → Represents (.node id .OPERATION ks) e
+  | chain {id : Nat} {ks : List Tree} {x₀ : Tree} {rest : List Tree} {e₀ e : NExpr} :
+      opKids ks = x₀ :: rest → rest ≠ [] → Represents x₀ e₀ →
+      FoldR Represents e₀ rest e → Represents (.node id .OPERATION ks) e
   | call0 {id : Nat} {ks : List Tree} {nm : Tree} {f : Fn} : opKids ks = [nm] →
       Represents (.node id .FN_CALL ks) (.call f [])
   | call {id aid : Nat} {ks aks : List Tree} {nm : Tree} {f : Fn} {x : Tree} {xs : List Tree}
